@@ -404,12 +404,16 @@ impl VarIntEncoder {
         let first_bytes = self.encode_leb128_u64(values[0])?;
         result.extend_from_slice(&first_bytes);
         
-        // Write deltas
+        // Write deltas. A step is taken modulo 2^64 in the direction whose magnitude
+        // fits into the 63 bits above the sign bit; the one step with no such direction,
+        // 2^63, becomes the otherwise unused code 1 ("negative zero").
         for i in 1..values.len() {
-            let delta = if values[i] >= values[i-1] {
-                (values[i] - values[i-1]) << 1 // Positive delta, LSB = 0
+            let forward = values[i].wrapping_sub(values[i-1]);
+            let backward = values[i-1].wrapping_sub(values[i]);
+            let delta = if forward < (1u64 << 63) {
+                forward << 1 // Positive delta, LSB = 0
             } else {
-                ((values[i-1] - values[i]) << 1) | 1 // Negative delta, LSB = 1
+                (backward << 1) | 1 // Negative delta, LSB = 1
             };
             
             let delta_bytes = self.encode_leb128_u64(delta)?;
@@ -435,7 +439,7 @@ impl VarIntEncoder {
         
         // Write deltas using zigzag encoding
         for i in 1..values.len() {
-            let delta = values[i] - values[i-1];
+            let delta = values[i].wrapping_sub(values[i-1]);
             let delta_bytes = self.encode_zigzag_i64(delta)?;
             result.extend_from_slice(&delta_bytes);
         }
@@ -465,15 +469,18 @@ impl VarIntEncoder {
         for _ in 1..count {
             let (encoded_delta, delta_bytes) = self.decode_leb128_u64(&data[offset..])?;
             
+            // Steps are modulo 2^64 (see the encoder), so every code is a valid step.
             let prev_value = result[result.len() - 1];
             let next_value = if (encoded_delta & 1) == 0 {
                 // Positive delta
-                prev_value.checked_add(encoded_delta >> 1)
+                prev_value.wrapping_add(encoded_delta >> 1)
+            } else if encoded_delta == 1 {
+                // "Negative zero" stands for the step of 2^63
+                prev_value.wrapping_add(1u64 << 63)
             } else {
                 // Negative delta
-                prev_value.checked_sub(encoded_delta >> 1)
-            }
-            .ok_or_else(|| ZiporaError::invalid_data("Delta sequence value out of range"))?;
+                prev_value.wrapping_sub(encoded_delta >> 1)
+            };
             
             result.push(next_value);
             offset += delta_bytes;
